@@ -334,63 +334,20 @@ def r201(ctx, rep, f, ev, cg, reach):
         rep.check(cs == [dl], "R20.1", "R20.1|chip|single-caller-%s" % nm, "%s has the single caller do_lane_alpide_checks" % fn_.split("::")[-1], W2,
                   "callers of %s: %s" % (fn_, cs))
 
-    # --- rdh_version → header id reference of the RDH0 validator
+    # --- rdh_version → header id reference of the RDH0 validator (per configuration, see C10 validator_configs)
     W3 = "fastpasta/src/analyze/validators/rdh.rs"
-    wc = "fastpasta::analyze::validators::rdh::RdhCruSanityValidator::<T>::with_custom_checks"
-    tb = ev.tb(wc)
-    ok = False
-    msg = ""
-    if tb is not None:
-        ifs = ifs_of(ev, wc, [Sym("cfg")])
-        some = "symc(isSome(sym(call:%srdh_version(sym(cfg)))))" % OPT
-        g = [o for o in ifs if ckey(o["cond"]) == some]
-        news = [(x, n) for x, n in tb.calls() if (n.get("fn") or "").endswith("rdh::Rdh0Validator::new")]
-        if len(g) == 1 and len(news) == 1 and g[0]["has_else"]:
-            then = g[0]["tb"].exprs[g[0]["node"]]["then"]
-            inside = any(x == news[0][0] for x, _ in tb.walk(then))
-            a0 = _peel(tb, news[0][1]["args"][0])
-            # Some(<binding of the if-let>)
-            isome = a0["k"] == "Adt" and a0.get("vname") == "Some" or (a0["k"] == "Call" and "Some" in (a0.get("fn") or ""))
-            pat = tb.e(g[0]["tb"].exprs[g[0]["node"]]["cond"])[1]["pat"]
-            bound = _first_bind(pat)
-            inner = None
-            if a0["k"] == "Adt" and a0.get("fields"):
-                inner = _peel(tb, a0["fields"][0]["e"])
-            elif a0["k"] == "Call" and a0.get("args"):
-                inner = _peel(tb, a0["args"][0])
-            ok = inside and isome and inner is not None and inner["k"] == "Var" and bound is not None and inner.get("id") == bound
-            msg = "inside-then=%s arg0=%s" % (inside, a0["k"])
-        else:
-            msg = "guards=%d Rdh0Validator::new sites=%d" % (len(g), len(news))
-    rep.check(ok, "R20.1", "R20.1|rdh_version|reference", "rdh_version: `if let Some(v)` → Rdh0Validator::new(Some(v), …) (%s)" % msg, W3,
-              "with_custom_checks does not construct the RDH0 validator with header_id = Some(configured rdh_version) under `if let Some`: %s" % msg)
-    # specialize keeps the configured reference
-    sp = "fastpasta::analyze::validators::rdh::RdhCruSanityValidator::<T>::specialize"
-    tb = ev.tb(sp)
+    from .c10 import validator_configs
+    rows, problems = validator_configs(ctx)
+    for pr in problems:
+        rep.bad("R20.1", "R20.1|rdh_version|anchor", pr, W3)
     bad = []
-    if tb is not None:
-        for x, n in tb.walk():
-            if n["k"] in ("Assign", "AssignOp"):
-                li, ln = tb.e(n["l"])
-                path_ = []
-                while ln["k"] in ("Field", "Deref", "Index") and "e" in ln:
-                    if ln["k"] == "Field":
-                        path_.append(ln.get("name"))
-                    li, ln = tb.e(ln["e"])
-                path_.reverse()
-                # whole-object or whole-validator overwrite, or the header id itself
-                if not path_ or path_ == ["rdh0_validator"] or (path_[:1] == ["rdh0_validator"] and "header_id" in path_):
-                    bad.append(".".join(path_) or "*self")
-            if n["k"] == "Call" and (n.get("fn") or "").split("::")[-1] in ("replace", "swap", "take") and "mem::" in (n.get("fn") or ""):
-                bad.append("mem::%s" % n["fn"].split("::")[-1])
-    rep.check(tb is not None and not bad, "R20.1", "R20.1|rdh_version|specialize", "specialize() leaves the configured header id in place", W3,
-              "specialize() overwrites %s, dropping the configured rdh_version" % bad)
-    nfc = "fastpasta::analyze::validators::rdh::RdhCruSanityValidator::<T>::new_from_config"
-    ifs = ifs_of(ev, nfc, [Sym("cfg")]) if nfc in f.fns else []
-    en = [o for o in ifs if "custom_checks_enabled" in ckey(o["cond"])]
-    okn = len(en) == 1 and not en[0]["guard"] and any((n.get("fn") or "").endswith("::with_custom_checks")
-                                                       for _, n in en[0]["tb"].calls(en[0]["tb"].exprs[en[0]["node"]]["then"]))
-    rep.check(okn, "R20.1", "R20.1|rdh_version|enabled-gate", "new_from_config uses with_custom_checks exactly when custom checks are enabled", W3)
+    for conds, header, system in rows:
+        want = "Some(rdh_version)" if conds.get("custom") and conds.get("version") else "None"
+        if header != want:
+            bad.append("%s → header-id reference %s (expected %s)" % (conds, header, want))
+    rep.check(not bad and len(rows) >= 4, "R20.1", "R20.1|rdh_version|reference",
+              "the RDH0 validator's header-id reference is Some(configured rdh_version) exactly when custom checks are enabled and the key is set — for every target (%d configurations)" % len(rows), W3,
+              "the configured rdh_version does not become the validator's header-id reference in every configuration: %s" % bad)
     rep.note("rdh_version: the comparison `rdh0.header_id != reference → [E10]` is part of the C10 predicate table (R10.1b)")
 
 
@@ -523,12 +480,13 @@ def r202(ctx, rep, f, ev, cg, reach):
                   where(fn), "forwarding impl %s calls %s" % (p, own))
     rep.floor("R20.2-forwarders", fw, 3 * 9, "forwarding impl methods of CustomChecksOpt/ChecksOpt for &T, Box<T>, Arc<T>")
     # accessor call sites = consumers
+    # consumers are named by module, not by function: splitting or renaming a consumer is not a change of behaviour
     allowed = {
-        "cdps": {"fastpasta::stats::stats_validation::validate_custom_stats"},
-        "triggers_pht": {"fastpasta::stats::stats_validation::validate_custom_stats"},
-        "rdh_version": {"fastpasta::analyze::validators::rdh::RdhCruSanityValidator::<T>::with_custom_checks"},
-        "chip_orders_ob": {"fastpasta::analyze::validators::its::alpide::check_alpide_data_frame"},
-        "chip_count_ob": {"fastpasta::analyze::validators::its::alpide::check_alpide_data_frame"},
+        "cdps": "fastpasta::stats::stats_validation::",
+        "triggers_pht": "fastpasta::stats::stats_validation::",
+        "rdh_version": "fastpasta::analyze::validators::rdh::",
+        "chip_orders_ob": "fastpasta::analyze::validators::its::alpide",
+        "chip_count_ob": "fastpasta::analyze::validators::its::alpide",
     }
     for key in KEYS:
         users = set()
@@ -542,8 +500,8 @@ def r202(ctx, rep, f, ev, cg, reach):
             for _, n in tb.calls():
                 if (n.get("fn") or "") == OPT + key:
                     users.add(re.sub(r"(::\{closure#\d+\})+$", "", p))
-        rep.check(users == allowed[key], "R20.2", "R20.2|consumers|%s" % key, "%s is read only by %s" % (key, sorted(x.split("::")[-1] for x in allowed[key])), W,
-                  "key %s is consumed by %s, expected exactly %s" % (key, sorted(users), sorted(allowed[key])))
+        rep.check(bool(users) and all(u.startswith(allowed[key]) for u in users), "R20.2", "R20.2|consumers|%s" % key, "%s is read only inside %s (%s)" % (key, allowed[key], sorted(x.split("::")[-1] for x in users)), W,
+                  "key %s is consumed by %s, expected only consumers inside %s" % (key, sorted(users), allowed[key]))
 
 
 def _serde_names(f, adt):
